@@ -54,24 +54,30 @@ Section CommentFmt.
     && (match c with [] => false | _ :: _ => negb (alnum (first_char c)) end)
     && all_chunks_eq (length c) (first_char c) c.
 
+  (* doc comments have an extra slash *)
+  Definition flc_comment (comment0 : bytes) : bytes :=
+    match comment0 with
+    | b :: r => if b =? 47 then r else comment0
+    | [] => comment0
+    end.
+
+  (* the "insert one space" candidate *)
+  Definition flc_new1 (content comment : bytes) : option bytes :=
+    match comment with
+    | b :: _ =>
+        if negb (is_ascii_ws b) && negb (comment_is_separator comment)
+        then Some (firstn (length content - length comment) content ++ [32] ++ comment)
+        else None
+    | [] => None
+    end.
+
   (* None = token untouched; Some c = set_content c *)
   Definition format_line_comment (content : bytes) : option bytes :=
     match strip_prefix [47; 47] content with
     | None => None
     | Some comment0 =>
-        let comment := match comment0 with
-                       | b :: r => if b =? 47 then r else comment0
-                       | [] => comment0 end in
-        let new1 :=
-          match comment with
-          | b :: _ =>
-              if negb (is_ascii_ws b) && negb (comment_is_separator comment)
-              then Some (firstn (length content - length comment) content ++ [32] ++ comment)
-              else None
-          | [] => None
-          end in
-        let trimmed := trim_ascii_end content in
-        if Nat.eqb (length trimmed) (length content) then new1
+        let new1 := flc_new1 content (flc_comment comment0) in
+        if Nat.eqb (length (trim_ascii_end content)) (length content) then new1
         else Some (trim_ascii_end (match new1 with Some s => s | None => content end))
     end.
 
